@@ -680,6 +680,11 @@ class Function(object):
         # Verify point is a Point
         assert isinstance(point, Point)
 
+        # Remove the leaf functions with null weight from the decomposition of self,
+        # so that they do not take part in the decision of what must be newly created.
+        if not self._is_leaf:
+            self.decomposition_dict = prune_dict(self.decomposition_dict)
+
         # If those values already exist, simply return them.
         # If not, instantiate them before returning.
         # Note if the non-differentiable case, the gradient is recomputed anyway.
